@@ -241,6 +241,9 @@ def run(L, rep, tier, seed):
           bound='parse_header_value replaced by its contract: list of 1..%d (name, q); names of 7/8/3 symbolic tchar bytes; '
                 'q any signed milli-value (32 bit)%s; all scalars symbolic' % (kmax, '' if tier == 'quick' else ' or NaN'))
     collect(S, rep, 'TE/choose')
+    # framing headers printed by raw_print follow the choice (same harness as C04, framing obligations only)
+    from props import c04
+    c04.run(L, rep, tier, seed, prop='C05')
 
 
 def collect(S, rep, name):
